@@ -1,8 +1,8 @@
 CONSTANTS
-  MaxUnits = 3
-  Conts = {0, 1, 2, 3}
-  Pads = {0, 3}
-  DataLens = {0, 20}
+  MaxUnits = 2
+  Conts = {0, 1, 2, 3, 4}
+  Pads = {0, 1, 200}
+  DataLens = {0, 1, 20, 3000}
   Defects = {}
 SPECIFICATION Spec
 INVARIANTS InOrderOnce NoEarly Prompt Consumed Terminates SameForEveryCut EmitCase
